@@ -1,5 +1,4 @@
-import HmsProofs.Lemmas.SimHList
-import HmsProofs.Lemmas.SimHObj
+import HmsProofs.Lemmas.SimHRead
 /-!
 # Expressions of the general fragment: the induction steps
 -/
@@ -20,12 +19,12 @@ theorem pgb_step (G : GCtx) (n : Nat) (hPE : ∀ m, m < n → PE G m) : PGB G n 
   intro A hA b st ip stk mem lm scopes vm hb hres hcalls hT hpl hrel hsp
   obtain ⟨bsp, bty, stmts, oe⟩ := b
   cases stmts with
-  | cons _ _ => simp [Frag.okGB] at hb
+  | cons _ _ => simp [Frag.okEB] at hb
   | nil =>
     cases oe with
-    | none => simp [Frag.okGB] at hb
+    | none => simp [Frag.okEB] at hb
     | some te =>
-      simp only [Frag.okGB] at hb
+      simp only [Frag.okEB] at hb
       simp only [Frag.varsGB, Frag.callsGB] at hres hcalls hT
       rw [cgB] at hpl ⊢
       rw [inScope_run]
@@ -45,8 +44,8 @@ theorem pgb_step (G : GCtx) (n : Nat) (hPE : ∀ m, m < n → PE G m) : PGB G n 
         rw [hte] at h1
         cases r1 with
         | ok v =>
-          obtain ⟨hfr, mem', hrun, hml⟩ := h1
-          exact ⟨inScope_frame st st1 hfr, mem', hrun, hml⟩
+          obtain ⟨hfr, mem', ov, hov, hrun, hml⟩ := h1
+          exact ⟨inScope_frame st st1 hfr, mem', ov, hov, hrun, hml⟩
         | error cerr =>
           cases cerr <;> first | trivial | exact h1.elim | exact h1 | skip
           obtain ⟨hfr, mem', hT, hml⟩ := h1
@@ -59,15 +58,23 @@ theorem cgE_infix (mod : String) (ρ φ : String → Option String) (sp ty op l 
        (cgE mod ρ φ r (cgE mod ρ φ l lm).2).2) := by
   cases op <;> first | rfl | cases h
 
-theorem okGE_call_inv (sp ty base args sw) (h : Frag.okGE (.call sp ty base args sw) = true) :
-    ∃ isp ity name g f si, base = .ident isp ity name g f si ∧ sw = false ∧ name ≠ "throw" ∧
-      name ≠ "println" ∧ Frag.okGArgs args = true ∧ Frag.oneNonAtom args = true := by
-  cases base <;> try (simp [Frag.okGE] at h; done)
+theorem okGE_call_inv (fr : Bool) (sp ty base args sw) (h : Frag.okE fr (.call sp ty base args sw) = true) :
+    (∃ isp ity name g f si, base = .ident isp ity name g f si ∧ sw = false ∧ name ≠ "throw" ∧
+      name ≠ "println" ∧ Frag.okEArgs fr args = true ∧ Frag.oneNonAtom args = true) ∨
+    (∃ msp mty b, base = .member msp mty b "len" .dot ∧ args = [] ∧ sw = false ∧ fr = true ∧ Frag.okE fr b = true) := by
+  cases base <;> try (simp [Frag.okE] at h; done)
   case ident isp ity name g f si =>
+    left
     cases sw
-    · simp only [Frag.okGE, Bool.and_eq_true, bne_iff_ne, ne_eq] at h
+    · simp only [Frag.okE, Bool.and_eq_true, bne_iff_ne, ne_eq] at h
       exact ⟨isp, ity, name, g, f, si, rfl, rfl, h.1.1.1, h.1.1.2, h.1.2, h.2⟩
-    · simp [Frag.okGE] at h
+    · simp [Frag.okE] at h
+  case member msp mty b nm mop =>
+    right
+    cases mop <;> cases args <;> cases sw <;> try (simp [Frag.okE] at h; done)
+    simp only [Frag.okE, Bool.and_eq_true, beq_iff_eq] at h
+    obtain ⟨⟨hfr, rfl⟩, hb⟩ := h
+    exact ⟨msp, mty, b, rfl, rfl, rfl, hfr, hb⟩
 
 /-- Expressions. -/
 theorem pe_step (G : GCtx) (hG : G.OK') (n : Nat) (hPE : ∀ m, m ≤ n → PE G m)
@@ -84,7 +91,7 @@ theorem pe_step (G : GCtx) (hG : G.OK') (n : Nat) (hPE : ∀ m, m ≤ n → PE G
       (fun x hx => hT x (by simp [Frag.namesGE, hv, hx])) hpl hrel hsp
   · have ihn := hPE n (Nat.le_refl n)
     have hPGB : PGB G n := pgb_step G n (fun m hm => hPE m (by omega))
-    cases e <;> try (simp only [Frag.okGE, Bool.false_eq_true] at hok)
+    cases e <;> try (simp only [Frag.okE, Bool.false_eq_true] at hok)
     case int | bool | str | null | none => exact absurd rfl hp
     case ident sp ty name g f si => exact absurd (by simpa [Frag.pureE] using hok) hp
     case grouped sp e =>
@@ -108,21 +115,21 @@ theorem pe_step (G : GCtx) (hG : G.OK') (n : Nat) (hPE : ∀ m, m ≤ n → PE G
       cases r1 with
       | error c1 => exact h1.error_n _
       | ok a =>
-        obtain ⟨hfr, mem1, hrun, hml⟩ := h1
+        obtain ⟨hfr, mem1, ov, hov, hrun, hml⟩ := h1
         simp only []
         cases hpo : preOp op a with
         | error c' =>
           obtain ⟨w, rfl⟩ := preOp_error hpo
           trivial
         | ok v =>
-          refine ⟨hfr, mem1, (hrun.trans (Runs.of_runsTo (fr := G.fr) (fun it_ => RunsTo.of_exec1 (fun k =>
+          refine ⟨hfr, mem1, none, OrgOK.none _, (hrun.trans (Runs.of_runsTo (fr := G.fr) (fun it_ => RunsTo.of_exec1 (fun k =>
             reach_pre G.code G.lim (baseOf (withIt G.s it_) A.fn A.rest A.mp st1.world) _ k stk mem1 ⟨A.fn, 0⟩ A.rest A.c rfl
-              hA.code op sp A.lab A.σ a v none hi hpo)))).cast ?_, hml⟩
+              hA.code op sp A.lab A.σ a v ov hi hpo)))).cast ?_, hml⟩
           omega
     case «infix» sp ty op l r =>
       have hnp : Frag.pureE (.infix sp ty op l r) = false := by simpa using hp
       simp only [hnp, Bool.false_or, Bool.and_eq_true, Bool.not_eq_eq_eq_not, Bool.not_true] at hok
-      obtain ⟨⟨hlog, hl⟩, hr⟩ := hok
+      obtain ⟨⟨⟨hlog, hl⟩, hr⟩, _⟩ := hok
       simp only [Frag.varsGE, Frag.callsGE, resolved_append, callsOK_append] at hres hcalls
       simp only [Frag.namesGE, Frag.varsGE, Frag.callsGE, List.mem_append] at hT
       have hwl : Frag.wsGE scopes A.φ l = true := by simp [Frag.wsGE, hres.1, hcalls.1]
@@ -151,26 +158,26 @@ theorem pe_step (G : GCtx) (hG : G.OK') (n : Nat) (hPE : ∀ m, m ≤ n → PE G
       cases r1 with
       | error c1 => exact h1.error_n _
       | ok a =>
-        obtain ⟨hfr1, mem1, hrun1, hml1⟩ := h1
+        obtain ⟨hfr1, mem1, ov1, hov1, hrun1, hml1⟩ := h1
         simp only []
         have hsp1 := hsp.world st1 hfr1 hrun1.inv
         have hrel1 : StRel G.mod A.T A.N A.σ G.lim A.mp scopes vm st1.scopes mem1 := by
           rw [hfr1]; exact hrel.memLe hml1.cells
-        have h2 := ihn A hA r st1 (ip + nI CA.1) (⟨a, none⟩ :: stk) mem1 CA.2 scopes vm hr hwr hTr (hCB ▸ hpB)
+        have h2 := ihn A hA r st1 (ip + nI CA.1) (⟨a, ov1⟩ :: stk) mem1 CA.2 scopes vm hr hwr hTr (hCB ▸ hpB)
           hrel1 hsp1
         rw [hCB] at h2
         rcases her : evalExpr G.cfg n r st1 with ⟨r2, st2⟩
         rw [her] at h2
         cases r2 with
-        | error c2 => exact SimGE.error_after _ [⟨a, none⟩] hrun1 hfr1 hml1 h2
+        | error c2 => exact SimGE.error_after _ [⟨a, ov1⟩] hrun1 hfr1 hml1 h2
         | ok b =>
-          obtain ⟨hfr2, mem2, hrun2, hml2⟩ := h2
+          obtain ⟨hfr2, mem2, ov2, hov2, hrun2, hml2⟩ := h2
           simp only []
           have hrun12 := (hrun1.trans hrun2).cast (Nat.add_assoc ip _ _)
           have hsp2 := hsp1.world st2 hfr2 hrun2.inv
           have ha := fun it_ => exec_arith G.code G.lim (baseOf (withIt G.s it_) A.fn A.rest A.mp st2.world) ⟨A.fn, 0⟩
             A.rest A.c A.σ A.lab
-            rfl hA.code op sp a b none none st2 (ip + (nI CA.1 + nI CB.1)) stk mem2 hlog
+            rfl hA.code op sp a b ov1 ov2 st2 (ip + (nI CA.1 + nI CB.1)) stk mem2 hlog
             (by simpa [nI_append] using hY) rfl
           rcases hb : binOp op a b sp st2 with ⟨rb, st3⟩
           have hst3 : st3 = st2 := by
@@ -182,7 +189,7 @@ theorem pe_step (G : GCtx) (hG : G.OK') (n : Nat) (hPE : ∀ m, m ≤ n → PE G
           cases rb with
           | ok v =>
             simp only [] at ha
-            refine ⟨hfr, mem2, (hrun12.trans (Runs.of_runsTo ha)).cast ?_, hml1.trans hml2⟩
+            refine ⟨hfr, mem2, none, OrgOK.none _, (hrun12.trans (Runs.of_runsTo ha)).cast ?_, hml1.trans hml2⟩
             simp only [nI_append]; omega
           | error cb =>
             cases cb <;> first | trivial | exact (ha ⟨[], 0⟩).elim | skip
@@ -190,9 +197,9 @@ theorem pe_step (G : GCtx) (hG : G.OK') (n : Nat) (hPE : ∀ m, m ≤ n → PE G
             exact hrun12.fatal (RunsF.of_runsFatal ha)
     case ifE sp ty cnd t el =>
       cases el with
-      | none => simp [Frag.okGE] at hok
+      | none => simp [Frag.okE] at hok
       | some eb =>
-        simp only [Frag.okGE, Bool.and_eq_true] at hok
+        simp only [Frag.okE, Bool.and_eq_true] at hok
         obtain ⟨⟨hcnd, ht⟩, he⟩ := hok
         simp only [Frag.varsGE, Frag.callsGE, resolved_append, callsOK_append] at hres hcalls
         simp only [Frag.namesGE, Frag.varsGE, Frag.callsGE, List.mem_append] at hT
@@ -243,7 +250,7 @@ theorem pe_step (G : GCtx) (hG : G.OK') (n : Nat) (hPE : ∀ m, m ≤ n → PE G
         cases r1 with
         | error c1 => exact h1.error_n _
         | ok a =>
-          obtain ⟨hfr1, mem1, hrun, hml1⟩ := h1
+          obtain ⟨hfr1, mem1, ov, hov, hrun, hml1⟩ := h1
           have hsp1 := hsp.world st1 hfr1 hrun.inv
           have hrel1 : StRel G.mod A.T A.N A.σ G.lim A.mp scopes vm st1.scopes mem1 := by
             rw [hfr1]; exact hrel.memLe hml1.cells
@@ -251,7 +258,7 @@ theorem pe_step (G : GCtx) (hG : G.OK') (n : Nat) (hPE : ∀ m, m ≤ n → PE G
           rename_i bv
           have hjif := Runs.of_runsTo (fr := G.fr) (fun it_ => RunsTo.of_exec1 (fun k =>
             reach_jumpIfFalse G.code G.lim (baseOf (withIt G.s it_) A.fn A.rest A.mp st1.world) _ k stk mem1 ⟨A.fn, 0⟩ A.rest A.c
-              rfl hA.code (A.lab els.1) sp bv none ijif))
+              rfl hA.code (A.lab els.1) sp bv ov ijif))
           cases bv with
           | true =>
             simp only []
@@ -265,8 +272,8 @@ theorem pe_step (G : GCtx) (hG : G.OK') (n : Nat) (hPE : ∀ m, m ≤ n → PE G
             cases r2 with
             | error c2 => exact SimGE.error_after _ [] hpre hfr1 hml1 h2
             | ok v =>
-              obtain ⟨hfr2, mem2, hrun2, hml2⟩ := h2
-              refine ⟨by rw [hfr2, hfr1], mem2, ((hpre.trans hrun2).trans (Runs.of_runsTo (fr := G.fr) (fun it_ => RunsTo.of_exec1 (fun k =>
+              obtain ⟨hfr2, mem2, ov2, hov2, hrun2, hml2⟩ := h2
+              refine ⟨by rw [hfr2, hfr1], mem2, ov2, hov2, ((hpre.trans hrun2).trans (Runs.of_runsTo (fr := G.fr) (fun it_ => RunsTo.of_exec1 (fun k =>
                 reach_jump G.code G.lim (baseOf (withIt G.s it_) A.fn A.rest A.mp st2.world) _ k _ mem2 ⟨A.fn, 0⟩ A.rest A.c rfl
                   hA.code (A.lab aft.1) sp (by rw [← Nat.add_assoc] at ijmp ⊢; exact ijmp))))).cast ?_,
                 hml1.trans hml2⟩
@@ -284,11 +291,23 @@ theorem pe_step (G : GCtx) (hG : G.OK') (n : Nat) (hPE : ∀ m, m ≤ n → PE G
             cases r2 with
             | error c2 => exact SimGE.error_after _ [] hpre hfr1 hml1 h2
             | ok v =>
-              obtain ⟨hfr2, mem2, hrun2, hml2⟩ := h2
-              refine ⟨by rw [hfr2, hfr1], mem2, (hpre.trans hrun2).cast ?_, hml1.trans hml2⟩
+              obtain ⟨hfr2, mem2, ov2, hov2, hrun2, hml2⟩ := h2
+              refine ⟨by rw [hfr2, hfr1], mem2, ov2, hov2, (hpre.trans hrun2).cast ?_, hml1.trans hml2⟩
               omega
     case call sp ty base args isSpawn =>
-      obtain ⟨isp, ity, name, g, f, si, rfl, rfl, hnt, hnp, hoa, hone⟩ := okGE_call_inv sp ty base args isSpawn hok
+      rcases okGE_call_inv G.fr sp ty base args isSpawn hok with
+        ⟨isp, ity, name, g, f, si, rfl, rfl, hnt, hnp, hoa, hone⟩ | ⟨msp, mty, b, rfl, rfl, rfl, hfr, hb⟩
+      rotate_left
+      · -- `l.len()`
+        simp only [Frag.varsGE, Frag.callsGE, Frag.varsGArgs, Frag.callsGArgs, List.append_nil] at hres hcalls
+        have hwb : Frag.wsGE scopes A.φ b = true := by simp [Frag.wsGE, hres, hcalls]
+        have hTb : ∀ x ∈ Frag.namesGE b, x ∈ A.T := by
+          intro x hx; exact hT x (by simpa [Frag.namesGE, Frag.varsGE, Frag.callsGE, Frag.varsGArgs, Frag.callsGArgs] using hx)
+        refine SimGE.of_simOE hfr (len_step G A hA hfr (n + 1) sp ty msp mty b st ip stk mem lm scopes hpl hsp ?_)
+        intro g hg
+        have hpb : Placed A.lab A.σ A.c ip (cgE G.mod (ρS scopes) A.φ b lm).1 := by
+          simp only [cgE] at hpl; exact hpl.append.1
+        exact SimOE.of_simGE (hPE g (by omega) A hA b st ip stk mem lm scopes vm hb hwb hTb hpb hrel hsp)
       simp only [Frag.varsGE, Frag.callsGE] at hres hcalls
       have hcalls' := hcalls
       simp only [Frag.callsOK, List.all_cons, Bool.and_eq_true] at hcalls'
@@ -343,12 +362,13 @@ theorem pe_step (G : GCtx) (hG : G.OK') (n : Nat) (hPE : ∀ m, m ≤ n → PE G
         cases r1 with
         | error c1 => cases c1 <;> first | trivial | exact h1.elim | exact h1
         | ok vals =>
-          obtain ⟨hfr1, mem1, hrun1, hml1⟩ := h1
+          obtain ⟨hfr1, mem1, svals, hsv, _, hrun1, hml1⟩ := h1
           simp only []
           have hsp1 := hsp.world st1 hfr1 hrun1.inv
           rw [applyFn_fn _ _ _ _ _ _ _ fd hfind]
-          have h2 := hPCall a (by omega) name fd I stmts e' hK hfind hFn hgh sp vals st1
+          have h2 := hPCall a (by omega) name fd I stmts e' hK hfind hFn hgh sp svals st1
             (⟨A.fn, ip + nI CA.1 + 1⟩ :: A.rest) A.mp stk mem1 hsp1 (by have := hA.lo; omega)
+          rw [hsv] at h2
           rcases hcb : callBody G.cfg a sp G.mod fd.params fd.body vals st1 with ⟨r2, st2⟩
           rw [hcb] at h2
           cases r2 with
@@ -360,9 +380,46 @@ theorem pe_step (G : GCtx) (hG : G.OK') (n : Nat) (hPE : ∀ m, m ≤ n → PE G
             · intro hk
               exact hrun1.fatal (RunsF.call hA icall (h2 hk))
           | ok v =>
-            obtain ⟨hfr2, mem2, hrc, hml2⟩ := h2
-            refine ⟨by rw [hfr2, hfr1], mem2, (hrun1.trans (Runs.call hA icall hrc)).cast (by omega),
+            obtain ⟨hfr2, mem2, o2, ho2, hrc, hml2⟩ := h2
+            refine ⟨by rw [hfr2, hfr1], mem2, o2, ho2, (hrun1.trans (Runs.call hA icall hrc)).cast (by omega),
               hml1.trans hml2⟩
+    case index sp ty b i =>
+      simp only [Bool.and_eq_true] at hok
+      obtain ⟨⟨⟨hfr, hb⟩, hi⟩, _⟩ := hok
+      simp only [Frag.varsGE, Frag.callsGE, resolved_append, callsOK_append] at hres hcalls
+      simp only [Frag.namesGE, Frag.varsGE, Frag.callsGE, List.mem_append] at hT
+      have hwb : Frag.wsGE scopes A.φ b = true := by simp [Frag.wsGE, hres.1, hcalls.1]
+      have hwi : Frag.wsGE scopes A.φ i = true := by simp [Frag.wsGE, hres.2, hcalls.2]
+      have hTb : ∀ x ∈ Frag.namesGE b, x ∈ A.T := by
+        intro x hx; simp only [Frag.namesGE, List.mem_append] at hx
+        rcases hx with hx | hx
+        · exact hT x (Or.inl (Or.inl hx))
+        · exact hT x (Or.inr (Or.inl hx))
+      have hTi : ∀ x ∈ Frag.namesGE i, x ∈ A.T := by
+        intro x hx; simp only [Frag.namesGE, List.mem_append] at hx
+        rcases hx with hx | hx
+        · exact hT x (Or.inl (Or.inr hx))
+        · exact hT x (Or.inr (Or.inr hx))
+      have hpl' := hpl
+      simp only [cgE] at hpl'
+      obtain ⟨h12, _⟩ := hpl'.append
+      obtain ⟨hpB, hpI⟩ := h12.append
+      exact SimGE.of_simOE hfr (index_step G A hA n sp ty b i st ip stk mem lm scopes vm hpl hrel hsp
+        (SimOE.of_simGE (ihn A hA b st ip stk mem lm scopes vm hb hwb hTb hpB hrel hsp))
+        (fun st1 mem1 bv ob hrel1 hsp1 => SimOE.of_simGE
+          (ihn A hA i st1 _ (⟨bv, ob⟩ :: stk) mem1 _ scopes vm hi hwi hTi hpI hrel1 hsp1)))
+    case member sp ty b name mop =>
+      cases mop <;> try (simp [Frag.okE] at hok; done)
+      simp only [Frag.okE, Bool.and_eq_true] at hok
+      obtain ⟨hfr, hb⟩ := hok
+      simp only [Frag.varsGE, Frag.callsGE] at hres hcalls
+      have hwb : Frag.wsGE scopes A.φ b = true := by simp [Frag.wsGE, hres, hcalls]
+      have hTb : ∀ x ∈ Frag.namesGE b, x ∈ A.T := by
+        intro x hx; exact hT x (by simpa [Frag.namesGE, Frag.varsGE, Frag.callsGE] using hx)
+      have hpB : Placed A.lab A.σ A.c ip (cgE G.mod (ρS scopes) A.φ b lm).1 := by
+        simp only [cgE] at hpl; exact hpl.append.1
+      exact SimGE.of_simOE hfr (member_step G A hA n sp ty b name st ip stk mem lm scopes hpl
+        (SimOE.of_simGE (ihn A hA b st ip stk mem lm scopes vm hb hwb hTb hpB hrel hsp)))
     case list sp ty xs =>
       simp only [Frag.varsGE] at hres
       simp only [Frag.namesGE, Frag.varsGE, Frag.callsGE, List.append_nil] at hT
@@ -382,7 +439,7 @@ theorem pe_step (G : GCtx) (hG : G.OK') (n : Nat) (hPE : ∀ m, m ≤ n → PE G
           (fun hi => hi.push _ (fun fs h => by cases h))
         have hels := hrun st.heap st.out []
         rw [List.nil_append] at hels
-        exact ⟨rfl, mem, (hpush.trans hels).cast (by omega), MemLe.refl _ _ _⟩
+        exact ⟨rfl, mem, none, OrgOK.none _, (hpush.trans hels).cast (by omega), MemLe.refl _ _ _⟩
     case obj sp ty fs =>
       simp only [Bool.and_eq_true, decide_eq_true_eq] at hok
       obtain ⟨⟨hat, hnd⟩, hnames⟩ := hok
@@ -413,12 +470,12 @@ theorem pe_step (G : GCtx) (hG : G.OK') (n : Nat) (hPE : ∀ m, m ≤ n → PE G
         rw [hmv] at hpush
         have hels := hrun st.heap st.out [] hnd (fun _ _ h => by simp at h)
         rw [List.nil_append, List.nil_append] at hels
-        exact ⟨rfl, mem, (hpush.trans hels).cast (by omega), MemLe.refl _ _ _⟩
+        exact ⟨rfl, mem, none, OrgOK.none _, (hpush.trans hels).cast (by omega), MemLe.refl _ _ _⟩
     case matchE sp ty c arms dflt =>
       cases dflt with
-      | none => simp [Frag.okGE] at hok
+      | none => simp [Frag.okE] at hok
       | some d =>
-      simp only [Frag.okGE, Bool.and_eq_true] at hok
+      simp only [Frag.okE, Bool.and_eq_true] at hok
       obtain ⟨⟨hc, harms⟩, hd⟩ := hok
       simp only [Frag.varsGE, Frag.callsGE] at hres hcalls
       rw [resolved_append, resolved_append] at hres
@@ -464,7 +521,7 @@ theorem pe_step (G : GCtx) (hG : G.OK') (n : Nat) (hPE : ∀ m, m ≤ n → PE G
       have hnE : nI [((Instr.jump aft.1 : SInstr), sp), (.label aft.1, sp)] = 1 := rfl
       simp only [nI_append, hnJ, hnL, hnE] at hplT ijd hplB edfl idrop hplD ija eaft ⊢
       simp only [← Nat.add_assoc] at hplT ijd hplB edfl idrop hplD ija eaft ⊢
-      have hlit : ∀ a ∈ arms, ∀ l ∈ a.1, Frag.litE l = true := fun a ha => (okGArms_mem arms harms a ha).1
+      have hlit : ∀ a ∈ arms, ∀ l ∈ a.1, Frag.litE l = true := fun a ha => (okGArms_mem G.fr arms harms a ha).1
       -- the control value
       have h1 := ihn A hA c st ip stk mem lm scopes vm hc
         (by simp only [Frag.wsGE, Bool.and_eq_true]; exact ⟨hvc, hcc⟩) hTc (hCC ▸ hplC) hrel hsp
@@ -475,12 +532,12 @@ theorem pe_step (G : GCtx) (hG : G.OK') (n : Nat) (hPE : ∀ m, m ≤ n → PE G
       cases r1 with
       | error c1 => exact h1.error_n _
       | ok cv =>
-        obtain ⟨hfr1, mem1, hrun1, hml1⟩ := h1
+        obtain ⟨hfr1, mem1, ov1, hov1, hrun1, hml1⟩ := h1
         simp only []
         have hsp1 := hsp.world st1 hfr1 hrun1.inv
         have hrel1 : StRel G.mod A.T A.N A.σ G.lim A.mp scopes vm st1.scopes mem1 := by
           rw [hfr1]; exact hrel.memLe hml1.cells
-        have htest := armTests_run G A hA sp ⟨cv, none⟩ stk mem1 st1.world arms aft.2 (ip + nI CC.1) hlit
+        have htest := armTests_run G A hA sp ⟨cv, ov1⟩ stk mem1 st1.world arms aft.2 (ip + nI CC.1) hlit
           (hTs ▸ hplT)
         rw [hTs] at htest
         have hlen : arms.length = ts.2.1.length := by rw [← hTs, armTests_length]
@@ -496,33 +553,33 @@ theorem pe_step (G : GCtx) (hG : G.OK') (n : Nat) (hPE : ∀ m, m ≤ n → PE G
           obtain ⟨lmi, idr, hplA, ijmp⟩ := cgArms_at A G.mod (ρS scopes) A.φ sp aft.1 arms ts.2.1 dfl.2 _ hlen
             (hBs ▸ hplB) i a nm hi hnm
           have hdrop := Runs.of_runsTo (fr := G.fr) (fun it_ => RunsTo.of_exec1 (fun k => reach_drop G.code G.lim
-            (baseOf (withIt G.s it_) A.fn A.rest A.mp st1.world) (A.lab nm) k stk mem1 ⟨A.fn, 0⟩ A.rest A.c rfl hA.code sp ⟨cv, none⟩
+            (baseOf (withIt G.s it_) A.fn A.rest A.mp st1.world) (A.lab nm) k stk mem1 ⟨A.fn, 0⟩ A.rest A.c rfl hA.code sp ⟨cv, ov1⟩
             idr))
           have hpre : Runs G.fr G.code G.lim G.s A.fn A.rest A.mp ip stk mem st.world (A.lab nm + 1) stk mem1 st1.world :=
             (hrun1.trans hrunT).trans hdrop
           have h2 := hPE f' (by omega) A hA a.2 st1 (A.lab nm + 1) stk mem1 lmi scopes vm
-            (okGArms_mem arms harms a ha).2 (wsGArms_mem scopes A.φ arms hva hca a ha) (hTa a ha) hplA hrel1 hsp1
+            (okGArms_mem G.fr arms harms a ha).2 (wsGArms_mem scopes A.φ arms hva hca a ha) (hTa a ha) hplA hrel1 hsp1
           rcases hea : evalExpr G.cfg f' a.2 st1 with ⟨r2, st2⟩
           rw [hea] at h2
           cases r2 with
           | error c2 => exact SimGE.error_after _ [] hpre hfr1 hml1 h2
           | ok v =>
-            obtain ⟨hfr2, mem2, hrun2, hml2⟩ := h2
+            obtain ⟨hfr2, mem2, ov2, hov2, hrun2, hml2⟩ := h2
             have hj := Runs.of_runsTo (fr := G.fr) (fun it_ => RunsTo.of_exec1 (fun k => reach_jump G.code G.lim
-              (baseOf (withIt G.s it_) A.fn A.rest A.mp st2.world) _ k (⟨v, none⟩ :: stk) mem2 ⟨A.fn, 0⟩ A.rest A.c rfl hA.code
+              (baseOf (withIt G.s it_) A.fn A.rest A.mp st2.world) _ k (⟨v, ov2⟩ :: stk) mem2 ⟨A.fn, 0⟩ A.rest A.c rfl hA.code
               (A.lab aft.1) sp ijmp))
-            exact ⟨frame_trans hfr1 hfr2, mem2, ((hpre.trans hrun2).trans hj).cast (by rw [eaft]; omega),
+            exact ⟨frame_trans hfr1 hfr2, mem2, ov2, hov2, ((hpre.trans hrun2).trans hj).cast (by rw [eaft]; omega),
               hml1.trans hml2⟩
         · -- the default
           rw [h]
           have hh' : armsHit st1.world.heap cv arms = some none := hh
           rw [hh'] at htest
           have hjd := Runs.of_runsTo (fr := G.fr) (fun it_ => RunsTo.of_exec1 (fun k => reach_jump G.code G.lim
-            (baseOf (withIt G.s it_) A.fn A.rest A.mp st1.world) _ k (⟨cv, none⟩ :: stk) mem1 ⟨A.fn, 0⟩ A.rest A.c rfl hA.code
+            (baseOf (withIt G.s it_) A.fn A.rest A.mp st1.world) _ k (⟨cv, ov1⟩ :: stk) mem1 ⟨A.fn, 0⟩ A.rest A.c rfl hA.code
             (A.lab dfl.1) sp ijd))
           have hdrop := Runs.of_runsTo (fr := G.fr) (fun it_ => RunsTo.of_exec1 (fun k => reach_drop G.code G.lim
             (baseOf (withIt G.s it_) A.fn A.rest A.mp st1.world) (A.lab dfl.1) k stk mem1 ⟨A.fn, 0⟩ A.rest A.c rfl hA.code sp
-            ⟨cv, none⟩ (by rw [edfl]; exact idrop)))
+            ⟨cv, ov1⟩ (by rw [edfl]; exact idrop)))
           have hpre : Runs G.fr G.code G.lim G.s A.fn A.rest A.mp ip stk mem st.world
               (ip + nI CC.1 + nI ts.1 + 1 + nI bs.1 + 1) stk mem1 st1.world :=
             (((hrun1.trans htest).trans hjd).trans hdrop).cast (by rw [edfl])
@@ -534,11 +591,11 @@ theorem pe_step (G : GCtx) (hG : G.OK') (n : Nat) (hPE : ∀ m, m ≤ n → PE G
           cases r2 with
           | error c2 => exact SimGE.error_after _ [] hpre hfr1 hml1 h2
           | ok v =>
-            obtain ⟨hfr2, mem2, hrun2, hml2⟩ := h2
+            obtain ⟨hfr2, mem2, ov2, hov2, hrun2, hml2⟩ := h2
             have hj := Runs.of_runsTo (fr := G.fr) (fun it_ => RunsTo.of_exec1 (fun k => reach_jump G.code G.lim
-              (baseOf (withIt G.s it_) A.fn A.rest A.mp st2.world) _ k (⟨v, none⟩ :: stk) mem2 ⟨A.fn, 0⟩ A.rest A.c rfl hA.code
+              (baseOf (withIt G.s it_) A.fn A.rest A.mp st2.world) _ k (⟨v, ov2⟩ :: stk) mem2 ⟨A.fn, 0⟩ A.rest A.c rfl hA.code
               (A.lab aft.1) sp ija))
-            exact ⟨frame_trans hfr1 hfr2, mem2, ((hpre.trans hrun2).trans hj).cast (by rw [eaft]; omega),
+            exact ⟨frame_trans hfr1 hfr2, mem2, ov2, hov2, ((hpre.trans hrun2).trans hj).cast (by rw [eaft]; omega),
               hml1.trans hml2⟩
 
 end HmsProofs.Sim
